@@ -745,6 +745,9 @@ func (t *Teamserver) EventListenerError(ListenerName string, Error error) {
 	}
 }
 
+// ClientWriteTimeout bounds a single write to an operator connection.
+const ClientWriteTimeout = 10 * time.Second
+
 func (t *Teamserver) SendEvent(id string, pk packager.Package) error {
 	var (
 		buffer bytes.Buffer
@@ -761,9 +764,14 @@ func (t *Teamserver) SendEvent(id string, pk packager.Package) error {
 		client := value.(*Client)
 		client.Mutex.Lock()
 
+		// an operator whose connection stays open but is no longer read from must not
+		// hold up the other operators and the agents: bound the write, and give up on
+		// the connection when it fails (its read loop then removes the client)
+		_ = client.Connection.SetWriteDeadline(time.Now().Add(ClientWriteTimeout))
 		err = client.Connection.WriteMessage(websocket.BinaryMessage, buffer.Bytes())
 		if err != nil {
 			client.Mutex.Unlock()
+			_ = client.Connection.Close()
 			return err
 		}
 
